@@ -13,7 +13,8 @@ T_NEG = bytes([0x81, 0x92, 0xA3, 0xB4, 0xC5, 0xD6, 0xE7, 0xF8, 0x09, 0x1A, 0x2B,
 T_POS = bytes([0x01, 0x12, 0x23, 0x34, 0x45, 0x56, 0x67, 0x78, 0x09, 0x1A, 0x2B, 0x3C, 0x4D, 0x5E, 0x6F])
 T_ZERO = bytes(15)
 T_FF = bytes([0xFF] * 15)
-TAILS = {'neg': T_NEG, 'pos': T_POS, 'zero': T_ZERO, 'ff': T_FF}
+T_BND = bytes([0x80, 0x7F, 0x80, 0x7F, 0x80, 0x7F, 0x00, 0x80, 0xFF, 0x7F, 0x80, 0x7F, 0x80, 0x7F, 0x80])   # disp8/imm8 = -128, +127; disp32 = 0x7f807f80
+TAILS = {'neg': T_NEG, 'pos': T_POS, 'zero': T_ZERO, 'ff': T_FF, 'bnd': T_BND}
 
 # SIB classes: no index (index=100), index with each scale, base=ebp (special with mod 0), eiz*2^k
 SIB_CLASSES = [0x24, 0x0C, 0x4B, 0x9E, 0xD8, 0x25, 0x65, 0xE5, 0x1D, 0x64, 0x40, 0x9B, 0x12]   # last three: base == index
@@ -26,7 +27,7 @@ ESCAPES = {('1', o) for o in (0x0f, 0x26, 0x2e, 0x36, 0x3e, 0x64, 0x65, 0x66, 0x
 def units(tier):
     """work units (prefix set, map, opcode, tailname); each is enumerated over all ModRM x SIB classes"""
     P = PFX_QUICK if tier == 'quick' else PFX_THOROUGH
-    tails = ['neg'] if tier == 'quick' else ['neg', 'pos', 'zero', 'ff']
+    tails = ['neg'] if tier == 'quick' else ['neg', 'pos', 'zero', 'ff', 'bnd']
     U = []
     for tn in tails:
         for pfx in P:
